@@ -267,7 +267,7 @@ def show(t, depth=0):
     if k == "mu":
         return "mu(" + t[2] + ": " + show(t[3], d) + " -> " + show(t[4], d) + ")"
     if k == "comp":
-        return "[" + show(t[2], d) + " for # in " + show(t[3], d) + (" if " + show(t[5], d) if t[5] else "") + "]"
+        return "[" + show(t[2], d) + " for # in " + show(t[3], d) + (" if " + " and ".join(show(c_, d) for c_ in t[5]) if t[5] else "") + "]"
     if k == "lambda":
         return "lambda " + ",".join(t[1]) + ": " + show(t[2], d)
     if k == "fmt":
